@@ -1,7 +1,61 @@
 import A2Verif.Model.Hex
-/-! driver family `c06` (stub until the family is built) -/
-namespace A2Verif.Drv.C06
+import A2Verif.Model.Reload
+/-!
+driver family `c06`: the identification model of `Model/Reload.lean` (`Reload.Ident`), asked by the harness family
+`c06id`.
 
-def handle (_toks : List String) : String := "bad-request"
+* `c06 try <d13|do|po|img> <len> <off>:<hex> …` — the bytes of a flat image of `len` bytes, given by the segments the
+  tests read (everything else is zero) → `reject` (the container's `from_bytes` refuses the size) or what the first
+  four tests of `try_img` answer on that container: `dos32 | dos33 | prodos | pascal | fat | later`
+* `c06 ident <none|d13|do|po|dsk|img> <len> <off>:<hex> …` → `none` (no flat container accepts) or the answer of
+  the first accepting container in the order of `create_fs_from_bytestream`
+-/
+namespace A2Verif.Drv.C06
+open A2Verif.Reload A2Verif.Reload.Ident
+
+def fsTok : FsId → String
+  | .dos32 => "dos32" | .dos33 => "dos33" | .prodos => "prodos" | .pascal => "pascal" | .fat => "fat" | .later => "later"
+
+def parseSeg (s : String) : Option (Nat × List Nat) :=
+  match s.splitOn ":" with
+  | [o, h] => do
+    let off ← o.toNat?
+    let b ← Hex.ofHex h
+    pure (off, b)
+  | _ => none
+
+/-- overwrite `new` at `off` (only inside the image) -/
+def put (b : List Nat) (off : Nat) (new : List Nat) : List Nat :=
+  if off + new.length ≤ b.length then b.take off ++ new ++ b.drop (off + new.length) else b
+
+def build (len : Nat) (segs : List (Nat × List Nat)) : List Nat :=
+  segs.foldl (fun b s => put b s.1 s.2) (List.replicate len 0)
+
+def parseCont : String → Option Cont
+  | "d13" => some .d13 | "do" => some .do_ | "po" => some .po | "img" => some .img | _ => none
+
+def parseHint : String → Option Hint
+  | "none" => some .none | "d13" => some .d13 | "do" => some .do_ | "po" => some .po | "dsk" => some .dsk | "img" => some .img
+  | _ => none
+
+def handle (toks : List String) : String :=
+  match toks with
+  | "try" :: c :: len :: segs =>
+    match parseCont c, len.toNat?, segs.mapM parseSeg with
+    | some c, some len, some segs =>
+      if len > 4000000 then "bad-request" else
+      match probeOf (build len segs) c with
+      | some p => fsTok (tryImg p)
+      | none => "reject"
+    | _, _, _ => "bad-request"
+  | "ident" :: h :: len :: segs =>
+    match parseHint h, len.toNat?, segs.mapM parseSeg with
+    | some h, some len, some segs =>
+      if len > 4000000 then "bad-request" else
+      match identify h (build len segs) with
+      | some f => fsTok f
+      | none => "none"
+    | _, _, _ => "bad-request"
+  | _ => "bad-request"
 
 end A2Verif.Drv.C06
